@@ -339,36 +339,27 @@ impl TableIterator {
 
 impl SSIterator for TableIterator {
     fn advance(&mut self) -> bool {
-        // Uninitialized case.
-        if self.current_block.is_none() {
+        // This is a loop rather than a recursion so that a long run of unreadable or empty blocks
+        // can't exhaust the stack.
+        loop {
+            // Does the current block (if any) have more entries?
+            if let Some(ref mut cb) = self.current_block {
+                if cb.advance() {
+                    return true;
+                }
+            }
+
+            // Uninitialized, or the current block is exhausted: try loading the next block.
+            self.current_block = None;
             match self.skip_to_next_entry() {
-                Ok(true) => return self.advance(),
+                Ok(true) => continue,
                 Ok(false) => {
                     self.reset();
                     return false;
                 }
                 // try next block from index, this might be corruption
-                Err(_) => return self.advance(),
+                Err(_) => continue,
             }
-        }
-
-        // Initialized case -- does the current block have more entries?
-        if let Some(ref mut cb) = self.current_block {
-            if cb.advance() {
-                return true;
-            }
-        }
-
-        // If the current block is exhausted, try loading the next block.
-        self.current_block = None;
-        match self.skip_to_next_entry() {
-            Ok(true) => self.advance(),
-            Ok(false) => {
-                self.reset();
-                false
-            }
-            // try next block, this might be corruption
-            Err(_) => self.advance(),
         }
     }
 
